@@ -150,19 +150,70 @@ pub fn short_msg(msg: &str) -> String {
     out.trim_matches('-').to_string()
 }
 
-/// (file, message-prefix) key of a panic: the allow-list of the fuzz targets and the signatures
-/// of the check are both built from it
+/// the source line of the panic site with blanks removed (at most 44 characters): two panic
+/// sites of one file with the same message get different keys, and the key survives edits that
+/// only move the line. Empty when the source cannot be read.
+pub fn code_snippet(p: &PanicRec) -> String {
+    let candidates = [p.file.clone(), format!("/repo/{}", p.file)];
+    for c in candidates {
+        if let Ok(text) = std::fs::read_to_string(&c) {
+            if let Some(line) = text.lines().nth((p.line as usize).saturating_sub(1)) {
+                let mut out = String::new();
+                for ch in line.trim().chars() {
+                    if out.len() >= 44 {
+                        break;
+                    }
+                    if ch.is_ascii_alphanumeric() || "_:.()?!&[]<>=,".contains(ch) {
+                        out.push(ch);
+                    }
+                }
+                return out;
+            }
+        }
+    }
+    String::new()
+}
+
+/// (file, message-prefix, code of the site) key of a panic: the allow-list of the fuzz targets
+/// and the signatures of the check are both built from it
 pub fn panic_key(p: &PanicRec) -> String {
-    format!("{}:{}", short_file(&p.file), short_msg(&p.msg))
+    let snip = code_snippet(p);
+    if snip.is_empty() {
+        format!("{}:{}", short_file(&p.file), short_msg(&p.msg))
+    } else {
+        format!("{}:{}:{}", short_file(&p.file), short_msg(&p.msg), snip)
+    }
 }
 
 pub fn is_harness_panic(p: &PanicRec) -> bool {
     short_file(&p.file).starts_with("HARNESS/")
 }
 
+/// the way an input reaches the code: part of the signature of a panic
+pub fn channel_of(stage: &str) -> &'static str {
+    let s = stage;
+    if s.starts_with("mem.") || s.starts_with("parse.") || s.starts_with("texts.") || s.starts_with("requests.") || s.starts_with("bomb") {
+        "local-text"
+    } else if s.starts_with("api.") {
+        "local-api"
+    } else if s.starts_with("wire.") {
+        "wire-query"
+    } else if s.starts_with("row.") {
+        "remote-row"
+    } else if s.starts_with("invite") {
+        "invite"
+    } else if s.starts_with("verify_hash") {
+        "verify-hash"
+    } else if s.starts_with("pull") {
+        "remote-answer"
+    } else {
+        "other"
+    }
+}
+
 /// signature of a panic observed while the harness was in `stage`
 pub fn panic_signature(p: &PanicRec, stage: &str) -> String {
-    format!("panic:{}@{}", panic_key(p), stage)
+    format!("panic:{}@{}", panic_key(p), channel_of(stage))
 }
 
 /// runs `f`, catching a panic of the calling thread; panics of other threads are only recorded
@@ -335,7 +386,23 @@ fn normalise_sql_msg(msg: &str) -> String {
 
 /// signature `sql:<shape>` of a database engine error on a request that passed parsing
 pub fn classify_sql(kind: &str, msg: &str, facts: &SqlFacts) -> String {
-    let near = near_token(msg);
+    // rusqlite appends " in <sql> at offset n": the statement is not part of the shape
+    let msg = match msg.find(" in SELECT") {
+        Some(i) => &msg[..i],
+        None => msg.lines().next().unwrap_or(msg),
+    };
+    let mut near = near_token(msg);
+    if near.is_none() {
+        if let Some(i) = msg.find("unrecognized token: \"") {
+            let rest = &msg[i + 21..];
+            if let Some(j) = rest.find('"') {
+                near = Some(rest[..j].to_string());
+            }
+        }
+    }
+    if near.as_deref() == Some("OFFSET") {
+        return "sql:skip-without-first".to_string();
+    }
     if let Some(tok) = &near {
         let tl = tok.to_lowercase();
         if is_sql_keyword(&tl) && facts.alias_candidates.iter().any(|a| a.to_lowercase() == tl) {
